@@ -74,6 +74,9 @@ def direct_session(R, hist, mini, multi, shape, repkind, fail_at=()):
     rep = make_rep(repkind, rs)
     ff = FitnessProbe(events, "scripted", hist, single=not multi)
     ff.fail_at = tuple(fail_at)
+    if R.random() < 0.3:
+        import numpy as _np
+        ff.conv = R.choice([_np.uint8, _np.uint16, _np.int16])
     problem = make_problem(ff, mini, multi)
     tracker = make_tracker(problem, multi, SequentialEvaluator(), [Observer(events, ids)])
     fresh = [Individual(rep.create_genotype(rs), rep) for _ in hist]
@@ -141,6 +144,9 @@ def algorithm_run(R, alg, hist, mode, mini, multi, budget_kind, n, repkind, gp_s
     rs = NativeRandomSource(R.randint(0, 10 ** 6))
     rep = make_rep(repkind, rs)
     ff = FitnessProbe(events, mode, hist, single=not multi)
+    if R.random() < 0.3:
+        import numpy as _np
+        ff.conv = R.choice([_np.uint8, _np.uint16, _np.int16])
     problem = make_problem(ff, mini, multi)
     tracker = make_tracker(problem, multi, SequentialEvaluator(), [Observer(events, ids)])
     if budget_kind == "eval":
@@ -323,6 +329,29 @@ def evaluator_sessions(R, batch, tier, stats):
             # the twin problem has its own fitness for the same individuals
             do_call(evaluator, evname, problem2, mini2, list(inds), ids)
             do_call(evaluator, evname, problem2, mini2, [inds[0]], ids)
+        # individuals scored under a problem that is then DROPPED; a new problem (this session's fitness function) that lands on
+        # the dead one's address has no fitness for them yet: they are evaluated, and what is stored is its own values
+        tab4 = [[(x + 1) * 2 for x in row] for row in tab]
+
+        def ff4(prog, tab4=tab4, multi=multi):
+            row = tab4[prog_value(prog) % len(tab4)]
+            return [float(x) for x in row] if multi else float(row[0])
+        inds4 = [Individual(gt, rep) for gt in genos]
+        p4 = make_problem(ff4, mini, multi)
+        SequentialEvaluator().evaluate(p4, inds4)
+        addr = id(p4)
+        del p4
+        hold, p5 = [], None
+        for _ in range(40):
+            cand = make_problem(ff, mini, multi)
+            if id(cand) == addr:
+                p5 = cand
+                break
+            hold.append(cand)
+        if p5 is None:
+            p5 = hold[-1]
+        do_call(SequentialEvaluator(), "seq", p5, mini, inds4 + [inds4[0]], Ids())
+        del hold
         if multi:
             # a LAZY problem (one bool for all components) whose very first evaluation is made by the pool
             lazy = bool(sidx % 2)
